@@ -14,8 +14,13 @@ package cache
 //@   ghost nNX int = 0
 //@   oncall Set: nSet = nSet + 1
 //@   oncall SetIfAbsent: nNX = nNX + 1
+//@   ghost gLeft time.Duration = 0
+//@   aftercall Until: gLeft = ret0
 //@   modifies nothing
 //@   ensures [C19:replace-unless-setnx] (setNX ? nNX == 1 && nSet == 0 : nSet == 1 && nNX == 0)
+//@   callsite Until: [C08:lifetime-counts-from-now] arg0 == expireTime
+//@   callsite SetIfAbsent: [C08:backend-lifetime-is-the-time-left] arg3 == gLeft
+//@   callsite Set: [C08:backend-lifetime-is-the-time-left] arg3 == gLeft
 //@   callsite SetIfAbsent: [C07:entry-holds-what-was-stored] entryHolds(arg2, arg1, k, v, storedTime, expireTime)
 //@   callsite Set: [C07:entry-holds-what-was-stored] entryHolds(arg2, arg1, k, v, storedTime, expireTime)
 //@ spec func entryHolds(e *cacheEntry, ks string, k []byte, v []byte, st time.Time, et time.Time) bool = e != nil && fresh(e)
